@@ -135,8 +135,8 @@ static void run_case(mscn *s, long idx) {
         if (s->dnull) { if (rc != EOK && want("C15") && s->fn == F_WCRTOMB) { snprintf(obs, sizeof obs, "size/state query (dest NULL) failed rc=%s", errname(rc)); vio("C15", s, idx, "null-dest-query-fails", det, obs); } return; }
         if (b == dmax) return;   /* the library keeps dest a terminated string: whether exactly-fitting bytes without room for the NUL are an error is left open by its documentation */
         if (b < dmax) { if (rc != EOK) { snprintf(obs, sizeof obs, "libc needs %zu bytes, dmax %zu, rc=%s", b, dmax, errname(rc)); vio("C15", s, idx, "fails-although-result-fits", det, obs); }
-            else if (ret != b || memcmp(dest, refb, b)) { snprintf(obs, sizeof obs, "retval %zu / bytes differ, libc gives %zu bytes", ret, b); vio("C15", s, idx, "differs-from-libc", det, obs); } }
-        else if (rc == EOK) { snprintf(obs, sizeof obs, "needs %zu bytes, dmax %zu, yet EOK", b, dmax); vio("C15", s, idx, "success-although-no-space", det, obs); }
+            else if (ret != b || memcmp(dest, refb, b)) { snprintf(obs, sizeof obs, "retval %zu / bytes differ, libc gives %zu bytes", ret, b); vio("C15", s, idx, "differs-from-libc", det, obs); vio("C06", s, idx, "differs-from-libc", det, obs); } }
+        else if (rc == EOK) { snprintf(obs, sizeof obs, "needs %zu bytes, dmax %zu, yet EOK", b, dmax); vio("C15", s, idx, "success-although-no-space", det, obs); vio("C06", s, idx, "success-although-no-space", det, obs); }
         return;
     }
     if (s->dnull) {   /* size query */
@@ -152,14 +152,14 @@ static void run_case(mscn *s, long idx) {
     if (fits) {
         if (rc != EOK) { snprintf(obs, sizeof obs, "converted length %zu fits in dmax %zu (len %zu) but rc=%s", k, dmax, len, errname(rc)); vio("C15", s, idx, "fails-although-result-fits", det, obs); return; }
         int same; if (to_wide) same = !memcmp(dest, rw, k * 4) && ((uint32_t *)dest)[k] == 0; else same = !memcmp(dest, rm, k) && dest[k] == 0;   /* against libc's own output */
-        if (ret != k || !same) { snprintf(obs, sizeof obs, "retval %zu (libc limited to the space: %zu) or converted characters differ", ret, k); vio("C15", s, idx, "differs-from-libc", det, obs); return; }
+        if (ret != k || !same) { snprintf(obs, sizeof obs, "retval %zu (libc limited to the space: %zu) or converted characters differ", ret, k); vio("C15", s, idx, "differs-from-libc", det, obs); vio("C06", s, idx, "differs-from-libc", det, obs); return; }
         if (!g_noslack) for (size_t i = (k + 1) * ew; i < dmax * ew; i++) if (dest[i]) { snprintf(obs, sizeof obs, "converted %zu, dmax %zu, stale byte at %zu", k, dmax, i); vio("C08", s, idx, "stale-data-behind-terminator", det, obs); break; }
         if (s->fn == F_MBSRTOWCS || s->fn == F_WCSRTOMBS) {
             const void *expsrc = (!stopped_early) ? NULL : (to_wide ? (const void *)((char *)src + mboff[k]) : (const void *)((wchar_t *)src + 0));
             if (!stopped_early && len > k && *srcp != NULL) { vio("C15", s, idx, "srcp-not-null-after-complete-conversion", det, "*srcp should be NULL when the terminator was converted"); }
             else if (stopped_early && !s->inv && to_wide && *srcp != expsrc) { snprintf(obs, sizeof obs, "*srcp at offset %ld, libc would leave it at %zu", (long)((char *)*srcp - (char *)src), mboff[k]); vio("C15", s, idx, "srcp-differs-from-libc", det, obs); }
         }
-    } else if (rc == EOK) { snprintf(obs, sizeof obs, "needs %zu+1 elements, dmax %zu, yet EOK (retval %zu)", k, dmax, ret); vio("C15", s, idx, "success-although-no-space", det, obs); }
+    } else if (rc == EOK) { snprintf(obs, sizeof obs, "needs %zu+1 elements, dmax %zu, yet EOK (retval %zu)", k, dmax, ret); vio("C15", s, idx, "success-although-no-space", det, obs); vio("C06", s, idx, "success-although-no-space", det, obs); }
     if (g_verbose) { wit(s, idx, "verbose"); fprintf(g_out, "%s\n", g_wit); }
     if (g_samples < 5 && idx % 1009 == (long)(g_seed % 1009)) { wit(s, idx, "sample"); emit_sample(g_wit); g_samples++; }
 }
